@@ -18,10 +18,10 @@ META = {
                'objno_used() echoes k when an objective was added and 0 when none was; the O segment forwards an '
                'objective to the builder iff it is needed, at its resulting index',
     'not_decided': 'that the skipped objectives\' expression trees and G segments are parsed and discarded without side '
-                   'effects (recursive expression readers, outside the subset); objective conversion in the flattener; '
+                   'effects (recursive expression readers: C02); the visitor that flattens the nonlinear part; '
                    'the objno line of the .sol file (WriteSolFile formatting)',
-    'not_under_contract': ['NLReader::ReadNumericExpr (recursive templates)', 'ProblemFlattener::Convert(MutObjective)',
-                           'WriteSolFile objno line', 'NLProblemBuilder::OnHeader (AddObjs call only through resulting_nobj)'],
+    'not_under_contract': ['NLReader::ReadNumericExpr (recursive templates: C02)', 'the expression visitor and term containers of ProblemFlattener (ghost objects)',
+                           'WriteSolFile objno line (C05)'],
     'assumptions': ['one solver object: members objno_, multiobj_, opts_read_, obj_added_ rendered as globals',
                     'virtual objno()/multiobj()/notify_obj_added() resolve to the SolverNLHandlerImpl overrides',
                     'objno_ >= -1 (member initialiser -1; SetObjNo, the only writer, is proved to store only values >= 0)'],
@@ -192,6 +192,27 @@ void vp_after_header(void) { if (nondet_bool()) { int v = nondet_int(); __CPROVE
                    stubs=['after_header_ callback (option parsing: may set objno >= 0 and multiobj)'])
 
 
+def builder_onheader_harness():
+    """NLProblemBuilder::OnHeader, the objective allocation: the problem gets exactly resulting_nobj(h.num_objs) objectives (all of the file's
+    in multi-objective mode, one when a single objective is selected and the file has some, none otherwise) - the count the O and G segment
+    handlers then index into."""
+    parts = [PRELUDE, decl('resulting_nobj'), '''
+struct { int num_objs; } h;
+int g_added; int g_addobjs_calls;
+static void builder_AddObjs(int n) { g_addobjs_calls++; g_added = n; }
+''',
+             Fn(NLR, r'int n_objs = resulting_nobj\( h\.num_objs \);', 'void vp_alloc_objs(void)', block_end=r'builder_\.AddObjs\([^;]*\);',
+                contract='__CPROVER_requires(INV && h.num_objs >= 0 && g_addobjs_calls == 0 && g_added == 0) '
+                         '__CPROVER_ensures(g_added == (M ? h.num_objs : ((K >= 1 && h.num_objs >= 1) ? 1 : 0)) && g_addobjs_calls <= 1) __CPROVER_assigns(g_added, g_addobjs_calls)',
+                subst=HANDLE, label='mp::internal::NLProblemBuilder::OnHeader [objective allocation]'),
+             STATE + '''void harness(void) { vp_state(); h.num_objs = nondet_int(); __CPROVER_assume(h.num_objs >= 0); vp_in_n = h.num_objs; g_added = 0; g_addobjs_calls = 0;
+  vp_alloc_objs(); VP_REACH("normal return"); }
+''']
+    return Harness('C12.NLProblemBuilder.OnHeader.objectives', 'C12', parts, enforce='vp_alloc_objs', replace=['resulting_nobj'],
+                   inputs=['vp_in_objno', 'vp_in_multiobj', 'vp_in_n'], replay=replay,
+                   stubs=['ProblemBuilder::AddObjs (ghost: records the count)'], note='modular: uses the contract of resulting_nobj')
+
+
 def osegment_harness():
     """case 'O' of NLReader::Read: index read with ReadUInt(num_objs) (contract: 0 <= index < bound, proved in C02),
     objective forwarded iff NeedObj(index), at resulting_obj_index(index)."""
@@ -208,7 +229,7 @@ int reader_ReadUInt(void)
 __CPROVER_requires(1) __CPROVER_ensures(__CPROVER_return_value >= 0) __CPROVER_assigns();
 void reader_ReadTillEndOfLine(void) {}
 NumericExpr ReadNumericExpr(bool b) { return nondet_int(); }
-int g_calls, g_index, g_type, g_read_index;
+int g_calls, g_index, g_type, g_read_index, g_never;
 void handler_OnObj(int index, int type, NumericExpr e) { g_calls++; g_index = index; g_type = type; }
 ''',
              Fn(NLR, r"int index = ReadUInt\(header_\.num_objs\);\s*int obj_type",
@@ -221,11 +242,13 @@ void handler_OnObj(int index, int type, NumericExpr e) { g_calls++; g_index = in
                 subst=HANDLE + [(r'break;\s*\}$', 'g_read_index = index; }', 1)],
                 label="mp::internal::NLReader::Read [case 'O']"),
              STATE + '''void harness(void) { vp_state(); header_.num_objs = nondet_int(); __CPROVER_assume(header_.num_objs >= 0);
-  vp_in_n = header_.num_objs; g_calls = 0; vp_O_segment(); VP_REACH("normal return"); }
+  vp_in_n = header_.num_objs; g_calls = 0;
+  g_never = 0; if (g_never) { (void)handler_NeedObj(0); (void)handler_resulting_obj_index(0); (void)ReadUInt(1); (void)reader_ReadUInt(); }   /* DFCC insists that a replaced function is referenced */
+  vp_O_segment(); VP_REACH("normal return"); }
 ''']
     return Harness('C12.NLReader.O_segment', 'C12', parts, enforce='vp_O_segment',
                    replace=['handler_NeedObj', 'handler_resulting_obj_index', 'ReadUInt', 'reader_ReadUInt'],
-                   inputs=['vp_in_objno', 'vp_in_multiobj', 'vp_in_n'],
+                   inputs=['vp_in_objno', 'vp_in_multiobj', 'vp_in_n'], replay=replay,
                    stubs=['NLReader::ReadUInt(ub) (contract 0 <= ret < ub, proved under C02)', 'TextReader::ReadUInt() (>= 0)',
                           'NLReader::ReadNumericExpr (opaque)', 'Handler::OnObj (ghost: records the call)'])
 
@@ -278,6 +301,16 @@ static void ReadLinearExpr_h(int num_terms, int h) { g_h_reads++; g_read_terms =
 
 
 PF = 'include/mp/flat/problem_flattener.h'
+
+
+def replay_objective(lead, inputs, obs):
+    """the objective that reaches the converter's ModelAPI, evaluated at a point, against the NL file's objective (adapted from the
+    demonstration of seeded change M51)"""
+    import subprocess
+    from vp import native
+    drv = native.build_driver('c12_objective_replay.cc', 'c12_objective_replay', native.MP_SOURCES, ['-O0', '-DNDEBUG'])[0]
+    p = subprocess.run([drv], capture_output=True, text=True, timeout=300)
+    return p.returncode == 1, (p.stdout + p.stderr)[-2000:], drv
 
 
 def flatten_objective_harness():
@@ -343,7 +376,7 @@ void harness(void) { vp_one = 1; g_type = nondet_bool() ? obj_MAX : obj_MIN; g_f
   g_delivered = 0; g_le_expr = 0; g_le_nconst = 0; g_le_sorted = 0; g_qp_sorted = 0;
   Convert_objective(); VP_REACH("normal return"); }
 ''']
-    return Harness('C12.ProblemFlattener.Convert.objective', 'C12', parts, enforce='Convert_objective',
+    return Harness('C12.ProblemFlattener.Convert.objective', 'C12', parts, enforce='Convert_objective', replay=replay_objective,
                    stubs=['LinTerms / EExpr / QuadTerms containers and the expression visitor (ghost objects)', 'value-presolve link bookkeeping (no-ops)'])
 
 
@@ -421,12 +454,20 @@ def replay(lead, inputs, obs):
         if p.returncode == 1:
             return True, (p.stdout + p.stderr)[-2000:], ' '.join(args)
         out = (p.stdout + p.stderr)[-500:]
+    # second driver: what is delivered (sense, linear and nonlinear part) for six selections over a two-objective model
+    try:
+        drv2 = native.build_driver('c12_delivery_replay.cc', 'c12_delivery_replay', native.MP_SOURCES, ['-O0', '-DNDEBUG'])[0]
+        p = subprocess.run([drv2], capture_output=True, text=True, timeout=300)
+        if p.returncode == 1:
+            return True, (p.stdout + p.stderr)[-2000:], drv2
+    except RuntimeError as e:
+        out += ' | c12_delivery_replay does not build: ' + str(e)[-300:]
     return False, 'not reproduced by %d native runs (verifier state and neighbourhood); last: %s' % (len(tried), out), tried[0]
 
 
 def harnesses(tier, seed):
     hs = [fn_harness(n) for n in ALL]
-    hs += [setobjno_harness(), onheader_harness(), osegment_harness(), gsegment_harness(), lemma_harness(), flatten_objective_harness()]
+    hs += [setobjno_harness(), onheader_harness(), osegment_harness(), gsegment_harness(), lemma_harness(), flatten_objective_harness(), builder_onheader_harness()]
     # the objective number echoed in every .sol file (final and intermediate) is objno_used(): the SolutionAdapter construction of both writers
     from specs import C10
     hs += [C10.passthrough_writer(0, 'HandleFeasibleSolution', prop='C12'), C10.passthrough_writer(1, 'HandleSolution', prop='C12')]
